@@ -37,6 +37,7 @@ var (
 	flagTrace    = flag.Bool("trace", false, "trace calls")
 	flagNoReplay = flag.Bool("noreplay", false, "do not replay counterexamples natively")
 	flagSolver   = flag.String("solver", "z3-new", "solver binary")
+	flagCross    = flag.String("crosscheck", "auto", "re-discharge logged solver sessions (a capped sample per unit; larger in the thorough tier) with z3 4.8.12 and cvc5: auto | on | off")
 	flagMaxPaths = flag.Int("maxpaths", 0, "override max paths")
 	flagUnitSeconds = flag.Int("unit-seconds", 0, "wall-clock budget per unit (default 1800 quick / 5400 thorough); exceeding it is reported as incomplete")
 	flagPrefix   = flag.String("prefix", "", "run a single path with this decision prefix (debug), e.g. 'B1 B0 V5'")
@@ -265,6 +266,19 @@ func run() int {
 		unitRe = regexp.MustCompile(*flagUnit)
 	}
 	kf := loadKnownFindings(filepath.Join(*flagVerif, "known_findings.txt"))
+	cross := *flagCross == "on" || *flagCross == "auto"
+	if cross {
+		d, err := os.MkdirTemp("", "gosym-xlog-")
+		if err == nil {
+			sym.XLogDir = d
+			defer os.RemoveAll(d)
+		}
+		sym.XLogMax = 16 // sessions per unit
+		if tier != "thorough" {
+			sym.XLogCap = 256 << 10
+			sym.XLogMax = 3
+		}
+	}
 
 	var evUnits []unitEvidence
 	var samples []interface{}
@@ -286,6 +300,7 @@ func run() int {
 			continue
 		}
 		opt.Deadline = time.Now().Add(time.Duration(unitSeconds) * time.Second)
+		sym.XLogUnit(name)
 		ur := sym.RunUnit(prog, name, fn, opt)
 		ue := unitEvidence{Unit: name, Paths: ur.Paths, Done: ur.Done, Pruned: ur.Pruned, Panicked: ur.Panicked, Ends: ur.Ends, Asserts: ur.Asserts, Folded: ur.Folded,
 			Queries: ur.Queries, Sat: ur.QSat, Unsat: ur.QUnsat, Unknown: ur.QUnknown, SolverS: ur.SolverTime.Seconds(), WallS: ur.Wall.Seconds(), Steps: ur.Steps, Decisions: ur.Decisions,
@@ -429,6 +444,17 @@ func run() int {
 			fmt.Printf("  violation static: %s\n", v)
 		}
 	}
+	var crossRes []sym.CrossResult
+	if sym.XLogDir != "" {
+		crossRes = sym.CrossCheck(sym.XLogDir, []string{"z3", "cvc5"}, 60000, workers)
+		for _, cr := range crossRes {
+			fmt.Printf("CROSS-SOLVER %s: sessions=%d queries=%d agree=%d undecided=%d primary-unknown=%d disagreements=%d wall=%.1fs\n", cr.Solver, cr.Sessions, cr.Queries, cr.Agree, cr.Undecided, cr.Skipped, len(cr.Disagreements), cr.WallS)
+			for _, d := range cr.Disagreements {
+				inconclusive = append(inconclusive, "cross-solver disagreement ("+cr.Solver+"): "+d)
+				fmt.Printf("  INCOMPLETE cross-solver disagreement (%s): %s\n", cr.Solver, d)
+			}
+		}
+	}
 	for _, l := range dedup(knownLines) {
 		fmt.Println(l)
 	}
@@ -477,6 +503,7 @@ func run() int {
 			"known_findings":                dedup(knownLines),
 			"witness_traces_validated_with_strace": traceValidated,
 			"inconclusive":                  inconclusive,
+			"cross_solver":                  crossRes,
 			"explanation":                   "bounded symbolic execution of the real go/ssa of /repo (regenerated on this run) with SMT discharge of every assertion; see DESIGN.md",
 		},
 		"assumptions": spec.Assumptions,
